@@ -32,7 +32,7 @@ REVERTS = HERE / "reverts"
 REVERT_EXPECT: Dict[str, List[Tuple[str, str]]] = {
     "fd1fe52": [("C16", "K11.numpy-api"), ("C14", "K11.numpy-api")],
     "f0ee80b": [("C14", "K11.numpy-api"), ("C14", "K12.identity-on-array")],
-    "9eacc9b": [("C16", "K9.pauli-tables")],
+    "9eacc9b": [("C16", "K9.multiform-semantics")],
     "deb8e55": [("C16", "K1.operands")],
     "ec5f687": [("C16", "K6.attr-guard")],
     "1e3c3ee": [("C11", "K3.arity-cover")],
@@ -69,6 +69,8 @@ REVERT_EXPECT: Dict[str, List[Tuple[str, str]]] = {
     "8c999d6": [("C06", "K9.identity-term")],
     "e7ccf88": [("C07", "K8.update-equals-rebuild")],
     "e8e6afc": [("C07", "K8.term-order")],
+    "170ceb8": [("C19", "K6.noise-validation")],
+    "a882132": [("C19", "K1.noise-model-inputs")],
     "e6696b9": [("C17", "K4.repr-eval")],
     "b9fae96": [("C17", "K4.roundtrip")],
     "b8efc25": [("C08", "K9.deflation")],
